@@ -120,6 +120,8 @@ func (Prop) Generate(seed uint64, tier string) *core.Plan {
 	nops := 2 + r.Intn(29)
 	if r.Intn(3) == 0 {
 		nops = 2 + r.Intn(6)
+	} else if r.Intn(25) == 0 {
+		nops = 40 + r.Intn(60) // occasionally a long history (N-th use effects)
 	}
 	clockMode := r.Intn(3) // 0 fixed, 1 small steps, 2 jumps across years
 	zoneMode := r.Intn(2)
